@@ -23,7 +23,10 @@ type closeArg struct {
 	err  error
 }
 
-var closeArgs = []closeArg{{"nil", nil}, {"sentinel", errSentinel}, {"wrapped", fmt.Errorf("wrapped: %w", errSentinel)}}
+var closeArgs = []closeArg{{"nil", nil}, {"sentinel", errSentinel}, {"wrapped", fmt.Errorf("wrapped: %w", errSentinel)},
+	// errors the write paths themselves treat specially: the end-of-input marker of reader-based sends,
+	// and the error a cancelled caller context produces
+	{"io.EOF", io.EOF}, {"context.Canceled", context.Canceled}}
 
 type obs struct {
 	env      *hlib.Env
@@ -258,7 +261,7 @@ func build(tier string) []*explore.Scenario {
 func main() {
 	explore.Main(explore.Spec{
 		Property:    "C11",
-		Rule:        "(a) Close(arg) completed, then each of the 7 write entry points x {sync, aq(2,B), aq(2,N)} x Close argument {nil, sentinel, wrapped} x caller context {background, live, cancelled}, exploring every choice among simultaneously ready select cases and every schedule of a sender the call may start; (b) a writer goroutine (2 calls) overlapping a closing goroutine, all interleavings up to the preemption bound, judging only calls that began after Close returned; distinct = distinct (transport log, call result) observations",
+		Rule:        "(a) Close(arg) completed, then each of the 7 write entry points x {sync, aq(2,B), aq(2,N)} x Close argument {nil, sentinel, wrapped, io.EOF, context.Canceled} x caller context {background, live, cancelled}, exploring every choice among simultaneously ready select cases and every schedule of a sender the call may start; (b) a writer goroutine (2 calls) overlapping a closing goroutine, all interleavings up to the preemption bound, judging only calls that began after Close returned; distinct = distinct (transport log, call result) observations",
 		Assume:      []string{"'after Close has returned' is read as: the call began after Close returned (overlapping calls are judged by C01/C06)", "mock transport fails writes after Close like a closed socket"},
 		Build:       build,
 		MinOutcomes: 2,
